@@ -573,6 +573,23 @@ def rule_j(ctx, idx, A, errcls):
             n_adm += 1
             con = "%s::handler@%s::loop-error-goes-on" % (K.where(mod, fi), K.src(h.type) if h.type is not None else "bare")
             is_cli = mod.rel.startswith("mpilot/cli/")
+            from .C13 import status_reaches_exit
+
+            if is_cli and not reraises(h, is_cli):
+                # on the source as written: the same handler in a plain function that returns a non-zero status which its callers
+                # hand to sys.exit (the normaliser inlines such a helper into the click command)
+                found_ = False
+                for f2 in idx.funcs:
+                    if f2.module is not mod:
+                        continue
+                    n0 = getattr(f2, "node_orig", None) or f2.node
+                    for t2 in [x for x in ast.walk(n0) if isinstance(x, ast.Try)]:
+                        for h2 in t2.handlers:
+                            if h2.lineno == h.lineno and status_reaches_exit(idx, f2, h2):
+                                found_ = True
+                if found_:
+                    ctx.hold("C14.j", con, mod.rel, h.lineno, "the handler returns a non-zero status that every caller hands to sys.exit")
+                    break
             if reraises(h, is_cli):
                 ctx.hold("C14.j", con, mod.rel, h.lineno, "the handler hands the error on (re-raise%s)" % (" / non-zero exit" if is_cli else ""))
             else:
